@@ -94,6 +94,8 @@ def py2e(node, env):
         if isinstance(node.func, ast.Name) and node.func.id in ("float", "array_sum") and len(node.args) == 1 and not node.keywords:
             # `float(array_sum(term))`: the translated term is the summand; the sum over the points is modelled by the list sum in Lean
             return py2e(node.args[0], env)
+        if isinstance(node.func, ast.Name) and node.func.id == "len" and len(node.args) == 1 and not node.keywords:
+            return '(.var "N")'   # the number of points
         if isinstance(node.func, ast.Name) and node.func.id in FUN1 and len(node.args) == 1 and not node.keywords:
             return f"(.{FUN1[node.func.id]} {py2e(node.args[0], env)})"
         raise Untranslatable("call " + ast.unparse(node.func))
@@ -314,6 +316,31 @@ def translate_zhit(out, names_out, untranslatable):
         untranslatable.append({"what": "Z-HIT kernels", "detail": str(ex)})
 
 
+def translate_kkauto(out, names_out, untranslatable):
+    """C10: the noise <-> pseudo chi-squared conversion of kramers_kronig/utility.py and the standard deviation of
+    the mock data's noise model (`sd = noise / 100 * abs(Z_ideal)` in `_add_noise`)."""
+    import pyimpspec.analysis.kramers_kronig.utility as KU
+    import pyimpspec.mock_data as MD
+    try:
+        out.append(f"/-- `_estimate_pct_noise(Z, pseudo_chisqr)` with N = len(Z) -/\ndef est_pct_noise : E := {translate_function(KU._estimate_pct_noise)}")
+        out.append(f"/-- `_estimate_pseudo_chisqr(Z, pct_noise)` with N = len(Z) -/\ndef est_pseudo_chisqr : E := {translate_function(KU._estimate_pseudo_chisqr)}")
+        src = textwrap.dedent(inspect.getsource(MD._add_noise))
+        fn = ast.parse(src).body[0]
+        sd = None
+        for st in ast.walk(fn):
+            if isinstance(st, ast.AnnAssign) and isinstance(st.target, ast.Name) and st.target.id == "sd" and st.value is not None:
+                sd = py2e(st.value, {})
+        if sd is None:
+            raise Untranslatable("_add_noise: the assignment of `sd` was not found")
+        normal = [ast.unparse(n) for n in ast.walk(fn) if isinstance(n, ast.Call) and isinstance(n.func, ast.Attribute) and n.func.attr == "normal"]
+        if sorted(normal) != ["rs.normal(0, sd)", "rs.normal(0, sd)"]:
+            raise Untranslatable(f"_add_noise: expected two draws rs.normal(0, sd) (real and imaginary part), found {normal}")
+        out.append(f"/-- `_add_noise`: standard deviation of the two independent zero-mean normal draws added to Re and Im -/\ndef noise_sd : E := {sd}")
+        names_out.extend(["est_pct_noise", "est_pseudo_chisqr", "noise_sd"])
+    except Untranslatable as ex:
+        untranslatable.append({"what": "KK noise kernels", "detail": str(ex)})
+
+
 def generate(gen_dir, untranslatable):
     from sympy import sympify
     from pyimpspec.circuit.registry import get_elements
@@ -342,6 +369,9 @@ def generate(gen_dir, untranslatable):
     zh = []
     translate_zhit(out, zh, untranslatable)
     out.append("def zhitKernels : List String := [" + ", ".join(f'"{n}"' for n in zh) + "]")
+    ka = []
+    translate_kkauto(out, ka, untranslatable)
+    out.append("def kkAutoKernels : List String := [" + ", ".join(f'"{n}"' for n in ka) + "]")
     kk = []
     translate_kk(out, kk, untranslatable)
     out.append("def kkColumns : List String := [" + ", ".join(f'"{n}"' for n in kk) + "]")
